@@ -267,6 +267,28 @@ SEEDS2.update(SEEDS8)
 SEEDS9 = {
     "C15-11": ("C15", ["C15"], "distributor: verification skipped when sha256(raw) was verified in the previous round (digest set swapped at round end, key ignores the log)", "one Distributor over two rounds: log A valid in round N, the witness answers log B with A's bytes in round N+1"),
     "C15-12": ("C15", ["C15"], "distributor PUT body re-serialised from the opened note (text + verified signatures only)", "a valid witnessed checkpoint carrying an additional signature line by an unknown key (e.g. another witness's cosignature)"),
+    "C07-11": ("C07", ["C07"], "(as C07-1, written independently) sql.getLatestCheckpoint as Query+rows.Next without rows.Err: a row-fetch error is read as NotFound", "a committed checkpoint and a driver error from Rows.Next of the checkpoint SELECT during an update carrying a fork as first use"),
+    "C07-12": ("C07", ["C07"], "witness: Set goes through a store() helper that retries once on a fresh WriteOps; the retry handle's deferred Close sits after the error check of its GetLatest", "two consecutive faults inside one Update (Set on the first handle, GetLatest on the retry handle) on a one-connection SQL store, observed through the next operation"),
+    "C08-11": ("C08", ["C08", "C07", "C05"], "witness keeps a per-log cache of the parsed latest checkpoint that is written before write.Set and never compared with the stored bytes", "an accepted checkpoint, then a valid update whose Set fails (fault or lost race), then an honest update on the same Witness instance"),
+    "C08-12": ("C08", ["C08"], "witness.parse refuses raw checkpoints above 16 KiB - for the stored (cosigned) one too, which is longer than what was admitted by one cosignature line", "an accepted log-signed checkpoint whose length lies in (16384-117, 16384], then any update"),
+    "C02-11": ("C02", ["C12", "C02", "C17"], "omniwitness AsLogMap shares one verifier per key NAME (text before the first '+') instead of per key string", "a configuration with two logs whose keys have the same name but different key material"),
+    "C02-12": ("C02", ["C02", "C12"], "witness.parse consults a cache sha256(stored cosigned bytes) -> parsed checkpoint that is not bound to the log ID", "an accepted update on log A, then exactly the returned cosigned bytes submitted for another configured log B while they are A's latest"),
+    "C13-11": ("C13", ["C13"], "feeder: errors whose chain contains context.Canceled/DeadlineExceeded are made backoff.Permanent (the error is looked at, not ctx.Err())", "a transient collaborator failure wrapping context.DeadlineExceeded (a per-request timeout) while the feeder's own context is live"),
+    "C13-12": ("C13", ["C13"], "feeder.submitToWitness: latestCP hoisted out of the retried closure and only assigned on a non-empty answer", "within one FeedOnce: an attempt seeing size N>0 that fails transiently, then an attempt in which the witness reports no checkpoint (old size N and proof from N sent instead of 0/empty)"),
+    "C10-11": ("C10", ["C10", "C04"], "witness.Update: same size + same root + empty proof returns the stored cosigned checkpoint without signing/storing the submitted text", "a stored checkpoint, then a same-tree resubmission with a different note text (extension line, leading zero)"),
+    "C10-12": ("C10", ["C10"], "bastion handler: 409 body built with strconv.AppendInt(int64(size))", "a witnessed checkpoint of size >= 2^63 (first use), then a stale old size"),
+    "C01-11": ("C01", ["C01", "C09"], "(as C01-1, written independently) Update's chain becomes a switch whose size-0 arm precedes the equal-size root comparison", "a stored size-0 checkpoint, then a log-signed size-0 checkpoint with another root"),
+    "C01-12": ("C01", ["C05", "C01"], "(as C01-2, written independently) inmemory.expectAndWrite simplified: 'read nothing but one exists now' is no longer a conflict", "two overlapping first-use updates of one log with different branches on the in-memory store"),
+    "C03-11": ("C03", ["C03", "C05", "C07"], "witness.Update runs write.Set in a goroutine and returns ctx.Err() when the context ends first; the abandoned Set still commits", "a valid update whose context is cancelled while Set is in flight (slow/blocking storage)"),
+    "C03-12": ("C03", ["C03", "C07", "C06"], "sql store: write-through cache for reader.GetLatest filled by a defer placed before tx.Commit (runs when Commit fails too)", "SQL backend, a valid update whose COMMIT fails, then a read through GetCheckpoint"),
+    "C04-11": ("C04", ["C04", "C10"], "witness.Update: the size-0 block returns the stored cosigned checkpoint (prevRaw) instead of cosigning and storing the submitted note", "a log first witnessed at size 0, then an accepted size-0 resubmission later in time or with an extension line"),
+    "C04-12": ("C04", ["C02", "C04", "C12"], "(as C02-12, written independently) witness.parse consults a cache of verified cosigned bytes keyed by sha256 only", "two logs; the exact cosigned bytes currently stored for A submitted for B"),
+    "C09-11": ("C09", ["C07", "C09", "C08", "C05"], "(as C08-11, written independently) per-log memo of the parsed stored checkpoint recorded before write.Set", "an accept path whose Set fails (fault or conflict), then a retry judged against the memo instead of the store"),
+    "C09-12": ("C09", ["C09", "C08", "C20"], "witness.Update: the equal-size branch compares note texts instead of root hashes", "stored checkpoint, then same size/root with another extension line or a size spelled 05 (refused as root mismatch)"),
+    "C05-11": ("C05", ["C05", "C16"], "witness: GetCheckpoint served from a sync.Map cache that Update fills AFTER write.Set returns", "chained accepted updates A:1->2, B:2->4 where B runs entirely between the application of A's Set and A's cache store; afterwards reads return size 2"),
+    "C05-12": ("C05", ["C05"], "inmemory.expectAndWrite returns nil early when the stored bytes already equal the bytes to write (before the conflict check)", "two byte-identical requests overlapping on one log with a deterministic (non-timestamped) witness signature"),
+    "C18-11": ("C18", ["C18", "C14"], "sumdb feeder: SaveTiles fills a per-FeedLog cache keyed by (level, index); ReadTiles serves an entry when its stored width 'covers' the request, and the full-tile marker -1 compares below every partial width", "one long-lived FeedLog: a proof that reads a tile while partial, then growth so that the same tile is full and needed again (100->200, 200->300)"),
+    "C18-12": ("C18", ["C18", "C14", "C19"], "client HTTPFetcher remembers 404/410 tile paths in a 'gone' set and never asks for them again", "one 404 for a tile the proof needs (checkpoint visible before its tile), then an honest server"),
 }
 SEEDS2.update(SEEDS9)
 ROUND9 = {'C01', 'C02', 'C03', 'C04', 'C05', 'C07', 'C08', 'C09', 'C10', 'C13', 'C15', 'C18'}
